@@ -4,6 +4,7 @@
 package c01
 
 import (
+	"encoding/json"
 	"bytes"
 	"encoding/hex"
 	"fmt"
@@ -213,6 +214,32 @@ func (g GObs) bytes() []byte {
 		panic(err)
 	}
 	return b
+}
+
+// sparse returns the observation as raw JSON whose block keys lack the member [drop] ("Hash" or "Number"), or are
+// null when drop is "": another encoder version or a faulty reporter may send that; a missing member is the zero value
+func (g GObs) sparse(drop string) GObs {
+	var m map[string]json.RawMessage
+	if err := json.Unmarshal(g.bytes(), &m); err != nil {
+		panic(err)
+	}
+	var hist []map[string]json.RawMessage
+	if err := json.Unmarshal(m["BlockHistory"], &hist); err != nil {
+		panic(err)
+	}
+	var out []any
+	for _, h := range hist {
+		if drop == "" {
+			out = append(out, nil)
+			continue
+		}
+		delete(h, drop)
+		out = append(out, h)
+	}
+	hb, _ := json.Marshal(out)
+	m["BlockHistory"] = hb
+	b, _ := json.Marshal(m)
+	return GObs{Raw: string(b)}
 }
 
 func digestOf(d int) (cd [32]byte) {
